@@ -845,6 +845,12 @@ impl<'a> Searcher<'a> {
         buffer_data: Option<&Vec<HashMap<String, String>>>,
         column_expr: &Expr,
     ) -> Variant {
+        // a literal is its own value; looking it up under its text would return the value of the
+        // column whose name the literal happens to spell (`select size, 'Size'`)
+        if let Some(ref value) = column_expr.val {
+            return Variant::from_signed_string(&value, column_expr.minus);
+        }
+
         let column_expr_str = column_expr.to_string();
 
         if file_map.contains_key(&column_expr_str) {
@@ -874,10 +880,6 @@ impl<'a> Searcher<'a> {
             } else {
                 return Variant::empty(VariantType::String);
             }
-        }
-
-        if let Some(ref value) = column_expr.val {
-            return Variant::from_signed_string(&value, column_expr.minus);
         }
 
         let result;
